@@ -189,7 +189,14 @@ def in_memory_case(rng, res):
         else:
             md = Metadata.load(os.path.join(root, "root.layout"))
             obj = md.get_payload()
-        edit = rng.choice(["expires", "expires", "pubkeys", "none"])
+            if rng.random() < 0.6:
+                # the loaded object has been checked once already (as in-toto-sign --verify, or an earlier verification, does)
+                for k in ch.owners:
+                    try:
+                        md.verify_signature(json.loads(json.dumps(k.pub)))
+                    except Exception:  # pylint: disable=broad-except
+                        pass
+        edit = rng.choice(["expires", "expires", "pubkeys", "none", "nested_pubkeys", "nested_pubkeys", "nested_command"])
         if edit == "expires":
             obj.expires = "2031-01-01T00:00:00Z" if signed_state == "expired" else "2029-01-01T00:00:00Z"
         elif edit == "pubkeys":
@@ -197,6 +204,16 @@ def in_memory_case(rng, res):
             for st in obj.steps:
                 st.pubkeys = [stranger.keyid]
             obj.keys = {stranger.keyid: stranger.pub}
+        elif edit == "nested_pubkeys":
+            # the same hand-over of the steps to a stranger, written without assigning any field of the layout anew
+            stranger = [k for k in W.pool() if k not in ch.owners][0]
+            for st in obj.steps:
+                del st.pubkeys[:]
+                st.pubkeys.append(stranger.keyid)
+            obj.keys[stranger.keyid] = stranger.pub
+        elif edit == "nested_command":
+            for st in obj.steps:
+                st.expected_command.append("--injected")
         content = json.loads(json.dumps(md.to_dict()))
         scn.layout = content
         t, _msg = c09.table_from_file(content, ch.owners)
